@@ -366,11 +366,13 @@ class C15(core.Check):
         return {"prop": "C15", "seed": seed, "files": files, "dirs": dirs, "root": root, "expand": expand, "twin": twin,
                 "flags": {"include_comments": k.random() < 0.3, "include_position": k.random() < 0.3},
                 "reuse_parser": k.random() < 0.5, "steps": steps, "faults": faults, "special": special,
+                "locale_encoding": k.choice(["utf-8", "utf-8", "cp1252", "latin-1"]),
                 "real_replay": (not faults) and k.random() < (0.03 if tier == "quick" else 0.1)}
 
     # ---------------------------------------------------------------- execute
     def make_fs(self, case, faults=True, cwd="/simfs"):
-        fs = simfs.SimFS(case["files"], cwd=cwd, faults=case["faults"] if faults else None)
+        fs = simfs.SimFS(case["files"], cwd=cwd, faults=case["faults"] if faults else None,
+                         default_encoding=case.get("locale_encoding", "utf-8"))
         for d in case["dirs"]:
             fs.mkdir(d)
         for d in ("/simfs/elsewhere", "/simfs/other", "/simfs/other/deep", "/simfs/proj", "/simfs/proj/inc", "/simfs/twinB"):
@@ -431,16 +433,16 @@ class C15(core.Check):
             rel = case["root"][len("/simfs/"):]  # the same relative name, whatever the working directory is
             if mode == "open_rel":
                 return mf.open(rel, **kw)
-            with open(rel, "r", encoding="utf-8") as fp:
+            with open(rel, "r", encoding="utf-8", newline="") as fp:
                 return mf.load(fp, **kw)
         if mode == "open":
             return mf.open(root, **kw)
         if mode == "load_named":
-            with open(root, "r", encoding="utf-8") as fp:
+            with open(root, "r", encoding="utf-8", newline="") as fp:  # the stream delivers the file content verbatim
                 return mf.load(fp, **kw)
         if mode == "load_relname":
             rel = posixpath.relpath(root, step["cwd"])
-            with open(rel, "r", encoding="utf-8") as fp:
+            with open(rel, "r", encoding="utf-8", newline="") as fp:
                 return mf.load(fp, **kw)
         text = case["files"][root]
         if mode == "loads":
